@@ -167,6 +167,6 @@ def call_mc(logic, k, formula, F=None):
                 r = mod.modelcheck(k, formula, F=F)
         return ('ret', r)
     except BaseException as ex:      # noqa: internal errors are observations, not crashes
-        if isinstance(ex, (KeyboardInterrupt, SystemExit, MemoryError)):
-            raise
+        if isinstance(ex, (KeyboardInterrupt, SystemExit, MemoryError)) or type(ex).__name__ == 'CaseTimeout':
+            raise                        # the harness's own per-case time limit is never an observation of the library
         return ('exc', type(ex).__name__, str(ex)[:200])
